@@ -68,6 +68,26 @@ theorem C10_merge_all (cmp : α → α → Ordering) (P : α → Prop) (h : TPO 
       Sorted (outLe asc cmp) (orderedQuery pq (shards.map fun flows => flows.map srt) none none) :=
   orderedQuery_nolimit (h.leOn asc) hpq srt hsrt shards hP
 
+/-- **Memtable tier of an ordered query.**  With ORDER BY the memtable source defers the limit
+(`lim = none`): its output is a sorted arrangement of ALL matching rows of the active memtable and
+of every passive memtable, whatever their sizes — in particular the passive memtables are read
+even when the active one alone already holds `LIMIT + OFFSET` matching rows.  It is therefore a flow
+in the sense of `C10_merge_topk` (`srt` = this sort, per-flow cut = none), and the first `k` rows
+any consumer takes from it are the first `k` of the sorted union. -/
+theorem C10_memtable_source_topk (cmp : α → α → Ordering) (P : α → Prop) (h : TPO cmp P) (asc : Bool)
+    (active : List α) (passives : List (List α)) (hP : ∀ x ∈ active ++ passives.flatten, P x) (k : Nat) :
+    (memtableSourceOrdered (outLe asc cmp) none active passives).Perm (active ++ passives.flatten) ∧
+    Sorted (outLe asc cmp) (memtableSourceOrdered (outLe asc cmp) none active passives) ∧
+    (memtableSourceOrdered (outLe asc cmp) none active passives).take k
+      = (isort (outLe asc cmp) (active ++ passives.flatten)).take k := by
+  simp only [memtableSourceOrdered, takeOpt]
+  exact ⟨isort_perm _ _, isort_sorted (h.leOn asc) _ hP, trivial⟩
+
+/-- Non-vacuity: the active memtable alone holds LIMIT+OFFSET = 2 rows, yet the page starts with
+the passive rows that sort first. -/
+example : (memtableSourceOrdered (outLe true fun (a b : Int) => compare a b) none [5, 7, 9] [[1, 8], [6]]).take 2 = [1, 5] := by
+  decide
+
 /-- The queue contract is satisfiable: selecting the greatest entry under `HeapItem::cmp` from
 an unordered list satisfies it whenever `cmp` is a total preorder. -/
 theorem C10_pq_contract_satisfiable (cmp : α → α → Ordering) (P : α → Prop) (h : TPO cmp P) (asc : Bool) :
